@@ -77,6 +77,7 @@ type gen struct {
 	assume   map[string]bool // findings assumed known: their signatures are excluded by construction
 	cmtPct   int             // chance of a comment per slot
 	nlPct    int             // chance of a voluntary line break per free gap
+	focus    bool            // focus mode, see rare()
 	wild     bool            // odd whitespace characters (\r\n, \f, \v, runs)
 	comments []comment
 	ncmt     int
@@ -88,13 +89,26 @@ type gen struct {
 
 func (g *gen) n(lo, hi int, label string) int { return rapid.IntRange(lo, hi).Draw(g.t, label) }
 
-// chance is true with probability pct/100; the minimal draw (0) is "false" so that shrinking
-// removes optional material.
+// chance is true with probability pct/100 (granularity 1/64); the minimal draw (all bits false) is
+// "false" so that shrinking removes optional material.  rapid's integer generators are deliberately skewed
+// towards small values (IntRange(0,99) lands in 0..9 in 42 % of the draws and in 90..99 in 7 %), which made
+// every nominal percentage about half of what was written and conjunctions of rare choices far rarer still;
+// rapid.Bool() is uniform, so the value is assembled from six of them.
 func (g *gen) chance(pct int, label string) bool {
 	if pct <= 0 {
 		return false
 	}
-	return rapid.IntRange(0, 99).Draw(g.t, label) >= 100-pct
+	k := (pct*64 + 50) / 100
+	if k < 1 {
+		k = 1
+	}
+	v := 0
+	for i := 0; i < 6; i++ {
+		if rapid.Bool().Draw(g.t, label) {
+			v |= 1 << i
+		}
+	}
+	return v >= 64-k
 }
 
 func (g *gen) raw(s string) {
@@ -497,8 +511,27 @@ func (g *gen) kind(k string) {
 	g.kinds[k]++
 }
 
+// rare scales the chance of a rarely taken alternative (an empty or dropped construct, ';', a spaced path):
+// in focus mode (one or two statements per program, dense comments) these are five times as likely, so
+// that their interactions with comments and line breaks inside ONE statement are reached within the budget.
+func (g *gen) rare(pct int) int {
+	if g.focus {
+		if pct*5 > 40 {
+			return 40
+		}
+		return pct * 5
+	}
+	return pct
+}
+
 func (g *gen) program(maxStmts int) {
+	if g.focus && maxStmts > 2 {
+		maxStmts = 2
+	}
 	nst := g.n(0, maxStmts, "nstmts")
+	if g.focus && nst == 0 {
+		nst = 1
+	}
 	kinds := make([]int, nst)
 	for i := range kinds {
 		// 0 syntax 1 info 2 import-lit 3 import-group 4 type-lit 5 type-group 6 service
@@ -577,7 +610,7 @@ func (g *gen) syntaxStmt() {
 // dropped by the formatter as a whole).
 func (g *gen) empties(n int, label string) (list []bool, all bool) {
 	list = make([]bool, n)
-	if n > 0 && g.chance(5, label+"allempty") {
+	if n > 0 && g.chance(g.rare(5), label+"allempty") {
 		for i := range list {
 			list[i] = true
 		}
@@ -585,7 +618,7 @@ func (g *gen) empties(n int, label string) (list []bool, all bool) {
 	}
 	some := false
 	for i := range list {
-		list[i] = g.chance(6, label+"empty1")
+		list[i] = g.chance(g.rare(6), label+"empty1")
 		some = some || !list[i]
 	}
 	if !some && n > 0 {
@@ -638,7 +671,7 @@ func (g *gen) infoStmt() {
 
 func (g *gen) importLit() {
 	g.kind("import")
-	if g.chance(4, "impempty") {
+	if g.chance(g.rare(4), "impempty") {
 		g.dropped(func() {
 			g.area = "import"
 			g.tok("import", gAny, clsMay)
@@ -970,7 +1003,7 @@ func (g *gen) serviceItem() {
 	g.area = "doc"
 	switch g.n(0, 3, "dock") {
 	case 1, 2: // @doc "text"
-		if g.chance(6, "docempty") {
+		if g.chance(g.rare(6), "docempty") {
 			g.dropped(func() {
 				g.tok("@doc", gAny, clsMay)
 				g.tok(`""`, gAny, clsMay)
@@ -998,9 +1031,9 @@ func (g *gen) serviceItem() {
 	g.tok(g.ident("hname"), gSep, clsMay).tr(clsMust)
 	g.area = "route"
 	g.tok(rapid.SampledFrom(httpMethods).Draw(g.t, "method"), gAny, clsMust)
-	hasReq, hasResp, semi := g.chance(60, "hasreq"), g.chance(60, "hasresp"), g.chance(15, "semi")
-	reqEmpty := hasReq && g.chance(6, "reqempty")
-	respEmpty := hasResp && g.chance(6, "respempty")
+	hasReq, hasResp, semi := g.chance(60, "hasreq"), g.chance(60, "hasresp"), g.chance(g.rare(15), "semi")
+	reqEmpty := hasReq && g.chance(g.rare(6), "reqempty")
+	respEmpty := hasResp && g.chance(g.rare(6), "respempty")
 	if semi || reqEmpty || respEmpty {
 		g.lossy = true
 	}
@@ -1048,7 +1081,7 @@ func (g *gen) serviceItem() {
 // path: ('/' [':'] (IDENT|INT) ('-' IDENT)*)+ ['/']   (parsePathExpr / parsePathItem); no comments
 // inside (a comment right after '/' is a syntax error), whitespace only rarely.
 func (g *gen) path() {
-	spaced := g.chance(8, "pathspaced")
+	spaced := g.chance(g.rare(8), "pathspaced")
 	emit := func(text string, first bool) {
 		switch {
 		case first:
@@ -1063,7 +1096,7 @@ func (g *gen) path() {
 	n := 1 + g.n(0, 3, "pathn")
 	for i := 0; i < n; i++ {
 		emit("/", i == 0)
-		if i == n-1 && g.chance(6, "pathslash") {
+		if i == n-1 && g.chance(g.rare(6), "pathslash") {
 			break
 		}
 		if g.chance(30, "pathcolon") {
